@@ -69,13 +69,38 @@ def oracle_unspent(csv_model, first_height=None):
             i_out += 1; k += 1
     return sorted('%s;%d;%d;%s;%s' % (t, i, h, v, a) for (t, i), (h, v, a) in utxo.items())
 
+def refund_history(r, variant):
+    """address A loses its last unspent output, is funded again (before or after a never-seen address appears), then a brand-new address B is paid while A still owns outputs;
+    interleaved with an address whose outputs are all spent at the end"""
+    A, B, C, D = (P2PKH(gen.rb(r, 20)) for _ in range(4))
+    t1 = Tx([(gen.rb(r, 32), 0, b'', 0)], [(20 * 10**8, A), (5, C)])
+    t2 = Tx([(t1.txid, 0, b'', 0)], [(20 * 10**8, C)])                               # A emptied
+    t3 = Tx([(t2.txid, 0, b'', 0)], [(12 * 10**8, A), (8 * 10**8, A if variant % 2 else C)])      # A funded again, no new address in between
+    t4 = Tx([(t3.txid, 1, b'', 0)], [(50 * 10**8, B), (1, D)] if variant < 2 else [(1, D), (50 * 10**8, B)])   # brand-new addresses while A still owns outputs
+    t5 = Tx([(t4.txid, 1 if variant < 2 else 0, b'', 0)], [(0, b'\x6a\x01x')])      # D emptied for good
+    seq = [t1, t2, t3, t4, t5]; blocks = []; prev = b'\x00' * 32
+    cuts = [[0, 2, 4, 5], [0, 1, 2, 3, 4, 5], [0, 5], [0, 3, 5]][variant % 4]
+    for h in range(len(cuts) - 1):
+        b = Block(prev, [coinbase_tx(h, [(50 * 10**8, C)], extra=gen.rb(r, 2))] + seq[cuts[h]:cuts[h + 1]], time=1300000000 + h); blocks.append(b); prev = b.hash
+    return blocks, {'refund', 'variant%d' % variant}
+
+def noaddr_history(r, nb):
+    """no output of the range bears an address: the dumps consist of the header only (and must still be written)"""
+    blocks = []; prev = b'\x00' * 32
+    for h in range(nb):
+        txs = [coinbase_tx(h, [(50 * 10**8, b'\x6a\x02hi')], extra=gen.rb(r, 2))] + [Tx([(gen.rb(r, 32), 0, b'', 0)], [(5, r.choice([b'', b'\x51', b'\x6a', gen.rb(r, 7)]))]) for _ in range(r.randrange(0, 3))]
+        b = Block(prev, txs, time=1300000000 + h); blocks.append(b); prev = b.hash
+    return blocks, {'no_address_at_all'}
+
 def make_cases(ck, n, few=False):
     r = ck.rng; cases = []
     for i in range(n):
         coin = gen.ALL_COINS[i % 8]; nb = r.randrange(2, 7)
         blocks, tags = history(r, coin, nb, few_addresses=few, many_outputs=(i % 6 == 5))
+        if i % 10 == 4: blocks, tags = refund_history(r, i // 10); nb = len(blocks)
+        if i % 10 == 9 and i < 20: blocks, tags = noaddr_history(r, nb)
         c = Case(('b' if few else 'u') + str(i), coin).simple_layout(blocks)
-        if i % 3 == 2: c.start = r.randrange(0, nb); c.end = r.choice([None, r.randrange(c.start + 1, nb + 1)]); tags.add('range')
+        if i % 3 == 2 and 'refund' not in tags: c.start = r.randrange(0, nb); c.end = r.choice([None, r.randrange(c.start + 1, nb + 1)]); tags.add('range')
         c.meta['tags'] = sorted(tags); cases.append(c)
     return cases
 
@@ -103,7 +128,7 @@ def small_histories(r, limit):
 def explore(ck, cb='unspent', few=False):
     r = ck.rng; quick = ck.tier == 'quick'
     ck.rule = ('random spend histories (fan-in/out, same-block spends, forward references to outputs of later transactions, several inputs on one tx, sweeps of all outputs of one transaction by consecutive inputs (address-less output first), unknown outpoints, double references, '
-               'address-less outputs of every kind, zero values, duplicate coinbase txids at different heights, > 255 outputs) x ranges x 8 coins, plus bounded-exhaustive two-block histories over a '
+               'address-less outputs of every kind, ranges without any address-bearing output (header-only dump), spend-to-empty / refund / brand-new-address sequences, zero values, duplicate coinbase txids at different heights, > 255 outputs) x ranges x 8 coins, plus bounded-exhaustive two-block histories over a '
                'fixed outpoint pool; the row set of the dump is compared with the model and with the property\'s definition evaluated over the csvdump rows. '
                'Non-trivial: >= 1 in-range spend of an in-range output; distinct by history.')
     cases = make_cases(ck, 30 if quick else 250, few=few)
